@@ -2327,7 +2327,7 @@ func runC05(ctx *Ctx) *Result {
 		res.Notes = append(res.Notes, "exhaustive: 16 device route sets x 41 target sequences over 4 keys; every hint combination of single-rule spellings per option kind, both protocol printing styles")
 	}
 	tDev := time.Now()
-	for i := 0; i < ctx.N(25, 500); i++ {
+	for i := 0; i < ctx.N(25, 350); i++ {
 		rng := base.Fork()
 		c := &c05Case{Abstract: true, Names: rng.Bool(), Stream: "device-compare"}
 		c.DevRoutes, c.TgtRoutes, c.Noise = genRoutes(rng, routeGenOpts{multiHop: rng.Chance(25), dupTarget: rng.Chance(8), max: 6, many: i == 0 || rng.Chance(10)}, res)
@@ -2342,14 +2342,14 @@ func runC05(ctx *Ctx) *Result {
 		runDeviceCompare(c)
 	}
 	// C10 for routes: approve is interrupted after k accepted `ip route` commands, then runs again
-	for i := 0; i < ctx.N(15, 400); i++ {
+	for i := 0; i < ctx.N(15, 300); i++ {
 		rng := base.Fork()
 		c := &c05Case{Abstract: true, Stream: "device-resume"}
 		c.DevRoutes, c.TgtRoutes, _ = genRoutes(rng, routeGenOpts{multiHop: rng.Chance(30), dupTarget: rng.Chance(8), max: 7}, res)
 		c.FailAt = rng.Intn(9)
 		runDeviceResume(c)
 	}
-	for i := 0; i < ctx.N(8, 200); i++ {
+	for i := 0; i < ctx.N(8, 150); i++ {
 		runIptResume(genIptResume(base.Fork()))
 	}
 	res.Notes = append(res.Notes, fmt.Sprintf("device streams took %.1fs", time.Since(tDev).Seconds()))
